@@ -38,7 +38,13 @@ func main() {
 	}
 	var known []KnownFinding
 	loadJSON(filepath.Join(*verif, "known_findings.json"), &known)
+	outDir := *verif
+	if d := os.Getenv("VERIF_OUT"); d != "" {
+		// scratch runs (seeded changes on a copy of the repository) keep their evidence and replays out of /verif
+		outDir = d
+	}
 	e := NewEngine(*repo, *verif, *tier)
+	e.outDir = outDir
 	e.debug = *debug
 	e.solverKind = *solver
 	e.only = *only
